@@ -6,6 +6,18 @@ props = [json.loads(l) for l in open(os.path.join(ROOT, "properties.jsonl"))]
 
 # id -> (technique, level text, level note, design ref)
 CHECKS = {
+ "C04": ("robustness fuzzing with a validity oracle: generated HTML/XML x options x chunkings in-process under deterministic step budgets (hook H1), pathological shapes in child processes with a watchdog",
+         "No panic/abort/signal, queue empty after every Done, end()/finish() return, exactly one EOF delivered last (counted by a forwarding TokenSink), step counters within a linear budget; 80 pathological shape families at sizes up to 3000 (quick) / 60000+ (thorough) in child processes with an 8 MiB stack.",
+         "A watchdog timeout is inconclusive, not a violation; profile=true is exercised by C08.",
+         "DESIGN.md 4 C04"),
+ "C11": ("model-based stateful property test: random operation histories over a pool of tendrils against Vec<u8> models, all formats x atomicities",
+         "After every operation every live tendril equals its model (non-interference), checked variants fail exactly when the model says so, UTF-8/WTF-8 validity holds; crash guard turns SIGSEGV/SIGABRT into a violation with the running case.",
+         "Trusted: the byte-vector models and the documented preconditions of the safe API; `unsafe` entry points are not called.",
+         "DESIGN.md 4 C11"),
+ "C12": ("execution monitoring of generated histories and thread schedules under an instrumented global allocator (red zones, quarantine, live table, per-case leak scopes)",
+         "Same histories as C11 plus thread schedules distributing clones/SendTendrils over 2-8 threads; every allocation in a case scope must be freed exactly once with the right layout, red zones and poison intact, nothing live afterwards. Runs in the vcheck_alloc binary.",
+         "Out-of-bounds/use-after-free READS are visible only through content equality; weak-memory reorderings of the atomic refcount are out of reach (real threads, x86).",
+         "DESIGN.md 4 C12"),
  "C18": ("fault-injection style property test: a garbage-collecting model sink collects untraced, disconnected nodes at every suspension point of generated parses (one character per chunk)",
          "After every feed() return trace_handles is called, everything not connected to a traced handle or the document is marked collected; any later sink call on a collected handle is a violation and the final tree must equal a GC-free run. HTML documents, fragments (incl. a caller-supplied form pointer) and XML.",
          "Without scripts most traced groups (open elements, head pointer, active formatting) are always connected to the document, so only the context element and a caller-supplied form pointer are observable; stated in DESIGN.md.",
@@ -91,7 +103,7 @@ def main():
             "guard": "servo_html5ever_verif",
             "enable": "RUSTFLAGS=\"--cfg servo_html5ever_verif\" (set by check.sh/setup.sh for the harness build, which compiles /repo's crates as path dependencies)",
             "baseline_off_cmd": "cd /repo && cargo test --workspace --no-fail-fast --offline",
-            "source_commits": [],
+            "source_commits": ["852dd63134dd5f86624f6a373324d5f769c58b92"],
             "add_only": True,
         },
         "engines": [{
